@@ -231,6 +231,14 @@ async fn run_case(seed: u64, idx: u64, world: &[Node], thorough: bool) -> Outcom
             }
         }
         settle().await;
+        // now and then a node enters the routing table while the lookup is running (the user adds it)
+        if rng.chance(1, 4) && table.len() < 60 {
+            let j = rng.below(world.len() as u64) as usize;
+            if !table.contains(&j) && !asked.contains(&j) && !reported.contains(&j) && svc.discv5.add_enr(world[j].enr.clone()).is_ok() {
+                table.push(j);
+                settle().await;
+            }
+        }
         // now and then a routing-table entry that the lookup has been told about, but has not asked
         // yet, leaves the table (the user removes it): the lookup keeps its own copy of the record
         if rng.chance(1, 3) {
